@@ -40,6 +40,56 @@ pub fn c19host(line: &str) -> String {
 }
 
 // ------------------------------------------------------------------------------------------
+// c19uri : Host for http::Uri (http 0.2 and 1), ConnectInfo::new(uri).   case: "<scheme hex|->;<host hex|->;<port|->"
+// The URI text is assembled here; the `http` crate's parse (scheme_str, host, port_u16) is the oracle and is checked to give
+// the components back.
+// ------------------------------------------------------------------------------------------
+pub fn c19uri(line: &str) -> String {
+    let f: Vec<&str> = line.split(';').collect();
+    let opt = |x: &str| if x == "-" { None } else { Some(String::from_utf8(unhex(x)).unwrap()) };
+    let (scheme, host) = (opt(f[0]), opt(f[1]));
+    let port: Option<u16> = if f[2] == "-" { None } else { Some(f[2].parse().unwrap()) };
+    let mut text = String::new();
+    if let Some(s) = &scheme {
+        text.push_str(s);
+        text.push_str("://");
+    }
+    if let Some(h) = &host {
+        text.push_str(h);
+    }
+    if let Some(p) = port {
+        text.push_str(&format!(":{p}"));
+    }
+    if scheme.is_some() {
+        text.push_str("/some/path?q=1");
+    } else if host.is_none() {
+        text.push_str("/only/a/path");
+    }
+    macro_rules! one {
+        ($m:ident) => {{
+            match text.parse::<$m::Uri>() {
+                Err(e) => format!("UNPARSABLE({e})"),
+                Ok(u) => {
+                    if u.scheme_str().map(str::to_string) != scheme || u.host().map(str::to_string) != host || u.port_u16() != port {
+                        format!("ORACLE-DIFFERS {:?} {:?} {:?}", u.scheme_str(), u.host(), u.port_u16())
+                    } else {
+                        let a = (Host::hostname(&u).to_string(), Host::port(&u));
+                        let ci = ConnectInfo::new(u);
+                        if ci.hostname() != a.0 {
+                            "CI-HOSTNAME-DIFFERS".to_string()
+                        } else {
+                            format!("{}|{}|{}", hex(a.0.as_bytes()), port_s(a.1), ci.port())
+                        }
+                    }
+                }
+            }
+        }};
+    }
+    let (a, b) = (one!(http_02), one!(http_1));
+    if a == b { a } else { format!("VERSIONS-DIFFER {a} vs {b}") }
+}
+
+// ------------------------------------------------------------------------------------------
 // c19info : builder scripts on ConnectInfo (no sockets)
 // ------------------------------------------------------------------------------------------
 
